@@ -109,7 +109,7 @@ type exScenario struct {
 func exScenarios() []exScenario {
 	var out []exScenario
 	// bulk executor: concurrent adders + one tick
-	for _, cfg := range []struct{ max, adders, per, ticks int }{{2, 2, 2, 1}, {3, 2, 2, 1}, {2, 1, 3, 2}, {2, 3, 1, 1}} {
+	for _, cfg := range []struct{ max, adders, per, ticks int }{{2, 2, 2, 1}, {3, 2, 2, 1}, {2, 1, 3, 2}, {2, 3, 1, 1}, {2, 2, 3, 1}} {
 		cfg := cfg
 		out = append(out, exScenario{fmt.Sprintf("bulk/max=%d/adders=%d/per=%d/ticks=%d", cfg.max, cfg.adders, cfg.per, cfg.ticks), func(r *vrt.Run) {
 			o := newExObs()
